@@ -17,7 +17,8 @@ RULE = ('stream = 1..6 generated messages (C03 generator, reference-encoded in m
         'method/return/error/signal deliveries equals the sent sequence (type, serial, flags, fields, signature, body) '
         'and no exception escapes dataReceived. Non-trivial = a cut strictly inside a 16-byte fixed header, or two byte '
         'orders in one stream, or >=100 messages in one read, or CR LF in bytes coalesced with the handshake; '
-        'distinct = distinct case JSON.')
+        'distinct = distinct case JSON. Messages may carry unknown header fields, fields of other message types and unknown flag bits '
+        '(alone or next to NO_REPLY / NO_AUTO_START).')
 ASSUMPTIONS = ['the interpreter recursion limit is left at its default',
                'peer credentials lookup is disabled for the in-memory transport (txdbus.protocol._is_linux=False)']
 
@@ -199,6 +200,10 @@ def classify(case):
         labels.append('msgs>=4')
     if any(m.get('extra') for m in case['msgs']):
         labels.append('unknown_header_field')
+    if any(m.get('foreign') for m in case['msgs']):
+        labels.append('fields_of_other_types')
+    if any(m.get('flag_bits') for m in case['msgs']):
+        labels.append('unknown_flag_bits')
     if off - p > 60000:
         labels.append('stream>60KB')
     del data_len
@@ -215,6 +220,7 @@ def crlf_message(draw, depth, big=False):
         m['sig'] = 's' + m['sig'] if len(m['sig']) < 200 else 's'
         m['trees'] = [draw(st.sampled_from(['\r\n', 'a\r\nb', '\r\n\r\n', 'BEGIN\r\n']))] + (
             m['trees'] if m['sig'] != 's' else [])
+    draw(S.wire_only_extras(m))
     if draw(st.integers(0, 5)) == 0:
         # a header field with a code this implementation does not know, at a drawn position among the known ones
         t = draw(st.sampled_from(['s', 'u', 'ay', 'v']))
